@@ -285,6 +285,9 @@ def decode_script(
     if witness:
         witness_stack_len, scriptbytes = bits.parse_compact_size_uint(scriptbytes)
         parsed_bytes = bits.compact_size_uint(witness_stack_len)
+        if not witness_stack_len:
+            # empty witness stack: nothing to read
+            return (parsed_bytes if parse else decoded), scriptbytes
 
     while scriptbytes:
         if witness:
